@@ -18,12 +18,12 @@ type c07Tpl struct {
 var c07Templates = []c07Tpl{
 	{
 		deps: []string{
-			"type Rec = {X: int; Y: string}\n",
+			"type Rec = {X: int; Y: string}\n\nlet width = 80\n",
 			"type Uni =\n  | A of int\n  | B\n",
 			"let helper (a:int) =\n  a + 1\n",
 		},
-		target: "let tgt (r:Rec) (u:Uni) =\n  let n = match u with\n          | A i -> i\n          | B -> 0\n  helper n + r.X\n",
-		marks:  []string{"func tgt("},
+		target: "let half () =\n  width\n\nlet tgt (r:Rec) (u:Uni) =\n  let n = match u with\n          | A i -> i\n          | B -> 0\n  helper n + r.X + width\n",
+		marks:  []string{"func half(", "func tgt("},
 	},
 	{
 		deps: []string{
@@ -153,6 +153,9 @@ func Harness_C07_Context() {
 		"type " + n2 + " = {P" + n2 + ": int; Q" + n2 + ": string}\n",
 		"type " + n3 + " =\n  | K" + n3 + "a\n  | K" + n3 + "b of int\n\nlet use" + n3 + " (v:" + n3 + ") =\n  match v with\n  | K" + n3 + "a -> 0\n  | K" + n3 + "b i -> i\n",
 	}
+	// an unrelated root-level value whose initialiser binds local names that
+	// coincide with top-level names the targets use (lexical scoping: no effect)
+	unrel = append(unrel, "type Zlbl =\n  | Zlabel of string\n  | Znone of int\n\nlet zfirst = Zlabel \"x\"\n\nlet zshown = match zfirst with\n             | Zlabel width -> width\n             | Znone idf -> \"n\"\n")
 	pkginfo := "package_info ext =\n  let " + n4 + ": int->int\n"
 
 	// order of the independent dependencies
@@ -168,9 +171,12 @@ func Harness_C07_Context() {
 	slots := [][]string{nil, nil, nil} // before all / between deps and target / after target
 	for k, u := range unrel {
 		if verifChoice("use"+itoaV(k), 2) == 1 {
-			s := verifChoice("slot"+itoaV(k), envInt("VERIF_SLOTS", 2))
-			if s == 1 && envInt("VERIF_SLOTS", 2) == 2 {
-				s = 2
+			s := 1 // between the dependencies and the target
+			if k < 2 {
+				s = verifChoice("slot"+itoaV(k), envInt("VERIF_SLOTS", 2))
+				if s == 1 && envInt("VERIF_SLOTS", 2) == 2 {
+					s = 2
+				}
 			}
 			slots[s] = append(slots[s], u)
 		}
